@@ -592,7 +592,7 @@ NUMBER_EDGES = ['1.5e', '1e5', '1E-3', '.5', '5.', '0x1F', '1_000', '00', '007',
 # quotings with a doubled quote inside, parameters, comments of every style, prefixed literals of other SQL flavours)
 LEXEME_FORMS = ['@v', "@'v'", '@"v"', '@`v`', '@@v', "@@'v'", '@@"g.v"', '@@`v`', '@a.b', '@$x', '@@session.v', "@'a b'", '@"a.b"', "@''", '@',
                 '0x1F', '1e5', '.5', '5.', '1.e3', "'a''b'", '"a""b"', '`a``b`', '$1', ':name', '?', '#c\n', '--c\n', '/*c*/', '\\N', "N'x'", "X'00'",
-                "b'01'", "_utf8'x'", '$$x$$', "E'x'", '[a]', '{a}', '%s', '%(n)s', '::', ':=', '->', '->>', '<=>', '!', '\\', '..', "''", '""', '``']
+                "b'01'", "_utf8'x'", '$$x$$', "@'x\ny'", '@"a\nb"', '@`a\nb`', "@@'x\ny'", "'a\nb'", '"a\nb"', '`a\nb`', "@'x\r\ny'", "'\n'", '@"\n"', "E'x'", '[a]', '{a}', '%s', '%(n)s', '::', ':=', '->', '->>', '<=>', '!', '\\', '..', "''", '""', '``']
 
 
 def mutate(text, toks, rng, vocab):
